@@ -10,8 +10,8 @@
 (*   RunStops          Run always ends in a state that is not in progress   *)
 (*   BadSpawnNoChange  a spawn that reports an error changes nothing        *)
 (***************************************************************************)
-EXTENDS MARS, TLC
-CONSTANTS M, P, C, MaxW
+EXTENDS MARS, TLC, Json
+CONSTANTS M, P, C, MaxW, EMIT
 
 Cfg == [M |-> M, P |-> P, C |-> C, RL |-> M, WL |-> M]
 WPool == << [code |-> << Ins("MOV","I","$",0,"$",1) >>, start |-> 0],
@@ -19,13 +19,17 @@ WPool == << [code |-> << Ins("MOV","I","$",0,"$",1) >>, start |-> 0],
             [code |-> << Ins("SPL","B","$",0,"<",1), Ins("JMP","B","$",M-1,"$",0) >>, start |-> 1] >>
 Offs == {0, M-1, M, 2*M+3}
 
-VARIABLES S, last
-Init == S = NewState(Cfg) /\ last = "new"
-Add(k)      == N(S) < MaxW /\ S' = AddW(S, WPool[k]) /\ last' = "add"
-Spawn(i, o) == LET r == SpawnW(S, i, o) IN S' = r.S /\ last' = IF r.err = "" THEN "spawn" ELSE "spawn-error"
-RunCycle    == S' = RunCycleW(S) /\ last' = "cycle"
-Run         == S' = RunW(S) /\ last' = "run"
-Reset       == S' = ResetW(S) /\ last' = "reset"
+\* hist is a witness: it is not part of the VIEW, so TLC keeps, for every distinct state S, the call history of the
+\* (breadth-first, hence shortest) path on which it first reached S.  Emit prints it with the observation of S;
+\* the harness replays every witness on the real simulator (one implementation test per reachable spec state).
+VARIABLES S, last, hist
+Init == S = NewState(Cfg) /\ last = "new" /\ hist = << >>
+Add(k)      == N(S) < MaxW /\ S' = AddW(S, WPool[k]) /\ last' = "add" /\ hist' = Append(hist, <<"add", k - 1>>)
+Spawn(i, o) == LET r == SpawnW(S, i, o) IN S' = r.S /\ last' = (IF r.err = "" THEN "spawn" ELSE "spawn-error") /\ hist' = Append(hist, <<"spawn", i, o>>)
+\* only the deterministic part of RunCycle is used for witnesses (no-op in PartialStart is what RunCycleW does)
+RunCycle    == ~(EMIT /\ PartialStart(S)) /\ S' = RunCycleW(S) /\ last' = "cycle" /\ hist' = Append(hist, <<"cycle">>)
+Run         == S' = RunW(S) /\ last' = "run" /\ hist' = Append(hist, <<"run">>)
+Reset       == S' = ResetW(S) /\ last' = "reset" /\ hist' = Append(hist, <<"reset">>)
 Next == \/ \E k \in 1..Len(WPool) : Add(k)
         \/ \E i \in -1..N(S)+1, o \in Offs : Spawn(i, o)
         \/ RunCycle \/ Run \/ Reset
@@ -37,5 +41,9 @@ Fresh(wd, k) == IF k = 0 THEN NewState(Cfg) ELSE AddW(Fresh(wd, k - 1), wd[k])
 ResetEqualsFresh == ResetW(S) = Fresh(S.wd, N(S))
 RunStops == ~InProgress(RunW(S))
 BadSpawnNoChange == \A i \in {-1, N(S), N(S) + 1} : SpawnW(S, i, 0).S = S /\ SpawnW(S, i, 0).err = "index"
+Obs == [cycle |-> S.cycle, living |-> S.living, alive |-> [k \in 1..N(S) |-> IF S.ws[k] = "alive" THEN 1 ELSE 0],
+        q |-> [k \in 1..N(S) |-> IF S.ws[k] = "alive" THEN S.wq[k] ELSE << >>],
+        core |-> [a \in 1..M |-> S.core[a - 1]], partial |-> PartialStart(S)]
+Emit == EMIT => PrintT(<<"CASE", ToJson([hist |-> hist, obs |-> Obs, M |-> M, P |-> P, C |-> C, pool |-> WPool])>>)
 AliveSpawnRefused == \A i \in 0..N(S)-1 : S.ws[i+1] = "alive" => SpawnW(S, i, M).S = S /\ SpawnW(S, i, M).err = "alive"
 =============================================================================
